@@ -294,7 +294,10 @@ def cold_cross_versions(rep, prop):
     rep.coverage["shared_definition_positions"] = len(targeted)
     for first in ("2.0.1", "1.6"):
         second = "1.6" if first == "2.0.1" else "2.0.1"
-        seq = warm[first] + [r for r in targeted if r[0] == second] + warm[second] + [r for r in targeted if r[0] == first]
+        # the very first validation of the process names the version "2.0" (the interface accepts it, no schemas are shipped
+        # for it): refused as not implemented, and nothing the other versions use is left pointing at it
+        v20 = [("2.0", "Call", "Heartbeat", {}), ("2.0", "CallResult", "BootNotification", {"status": "Accepted"})]
+        seq = v20 + warm[first] + [r for r in targeted if r[0] == second] + warm[second] + [r for r in targeted if r[0] == first] + v20
         pr = subprocess.run([C.PY, "-c", _COLD_CROSS, C.REPO, C.VERIF], input=json.dumps(seq), capture_output=True, text=True, timeout=300,
                             env=dict(os.environ, PYTHONHASHSEED="0", PYTHONPATH=C.REPO, OCPP_REPO=C.REPO))
         try:
@@ -305,6 +308,13 @@ def cold_cross_versions(rep, prop):
             continue
         for (version, mtype, action, payload), v in zip(seq, got):
             rep.count("cold-cross:%s:%s:%s:%s:%s" % (first, version, mtype, action, json.dumps(payload, sort_keys=True)[:300]))
+            if version == "2.0":
+                if v != ["reject", "NotImplemented"]:
+                    rep.violation("%s:cold-cross:%s-first:2.0" % (prop, first),
+                                  "fresh interpreter: a validation for the version string \"2.0\" (no schemas shipped) is judged %r" % (v,),
+                                  {"kind": "cold-cross", "first": first, "version": version, "mtype": mtype, "action": action,
+                                   "payload": payload, "verdict": v})
+                continue
             want = independent_verdict(version, mtype, action, payload)
             if want is None:
                 continue
